@@ -12,7 +12,8 @@
 (*             op = "domain": self.update_domain()                         *)
 (*             op = "post"  : self.do_post_stage(num/den * dt, n)          *)
 (*   arrs  : the particle arrays in sorted-name order, each                *)
-(*           [name, nreal, k0, meth]; meth[m+1] = [loop, py, mv, pyw] says *)
+(*           [name, nreal, k0, meth]; meth[m+1] = [loop, py, mv, pyw, pop] *)
+(*           says                                                          *)
 (*           whether the array's stepper has the compiled method (loop),   *)
 (*           the Python hook py_stageM (py), how far the method moves a    *)
 (*           particle (mv), whether the hook writes a stepper attribute    *)
@@ -98,18 +99,22 @@ P_Accel(C, l) ==
             /\ Near(g[x].dt, StepDt(C, o[x]), C.e)
 
 (***************************************************************************)
-(* ... after refreshing neighbours unless update_nnps=False: the event     *)
-(* just before the evaluation is the refresh (nothing may move a particle  *)
-(* in between).  Nothing is demanded when update_nnps=False.               *)
+(* ... after refreshing neighbours unless update_nnps=False.  With         *)
+(* update_nnps=True the event just before the evaluation is the refresh    *)
+(* (nothing may move a particle in between); with update_nnps=False it is  *)
+(* not a refresh; there are as many refreshes as refreshing calls.         *)
 (***************************************************************************)
 P_Refresh(C, l) ==
     LET pos == SelectSeq([p \in 1..Len(l) |-> p],
                          LAMBDA p : l[p].ev = "accel")
         o == KOccs(C, "accel")
     IN Len(pos) = Len(o) =>
-         \A x \in 1..Len(pos) :
-            OpOf(C, o[x]).nnps =>
-                (pos[x] > 1 /\ l[pos[x] - 1].ev = "nnps")
+         /\ \A x \in 1..Len(pos) :
+               IF OpOf(C, o[x]).nnps
+               THEN pos[x] > 1 /\ l[pos[x] - 1].ev = "nnps"
+               ELSE pos[x] = 1 \/ l[pos[x] - 1].ev # "nnps"
+         /\ Len(OfKind(l, "nnps"))
+               = Cardinality({x \in 1..Len(o) : OpOf(C, o[x]).nnps})
 
 (***************************************************************************)
 (* update_domain: once per call written.                                   *)
@@ -137,10 +142,33 @@ P_Post(C, l) ==
 (* stage time and the step size.                                           *)
 (***************************************************************************)
 Meth(C, ai, r) == C.arrs[ai].meth[OpOf(C, r).m + 1]
+
+(***************************************************************************)
+(* A py hook may change the population of its array (pop): "add" one real  *)
+(* particle, turn one real particle into a "ghost" (tag + align) or        *)
+(* "remove" one.  The stage is applied to the real particles as they are   *)
+(* AFTER the hook: NRealAt[r] = number of real particles of array ai when  *)
+(* the compiled method of occurrence r runs.                               *)
+(***************************************************************************)
+PopDelta(d, n) ==
+    IF ~ d.py THEN 0
+    ELSE CASE d.pop = "add" -> 1
+           [] d.pop \in {"ghost", "remove"} -> (IF n > 0 THEN -1 ELSE 0)
+           [] OTHER -> 0
+NRealAt(C, ai) ==
+    LET f[r \in 0..NOcc(C)] ==
+            IF r = 0 THEN C.arrs[ai].nreal
+            ELSE IF OpOf(C, r).op = "stage"
+                 THEN f[r - 1] + PopDelta(Meth(C, ai, r), f[r - 1])
+                 ELSE f[r - 1]
+    IN f
+HasPop(C) == \E ai \in 1..Len(C.arrs) : \E q \in 1..Len(C.arrs[ai].meth) :
+                C.arrs[ai].meth[q].py /\ C.arrs[ai].meth[q].pop # "none"
+
 BlockLen(C, ai, r) ==
     IF OpOf(C, r).op # "stage" THEN 0
     ELSE (IF Meth(C, ai, r).py THEN 1 ELSE 0) +
-         (IF Meth(C, ai, r).loop THEN C.arrs[ai].nreal ELSE 0)
+         (IF Meth(C, ai, r).loop THEN NRealAt(C, ai)[r] ELSE 0)
 \* offsets: Off[r] = number of events of array ai before occurrence r
 Offsets(C, ai) ==
     LET f[r \in 1..(NOcc(C) + 1)] ==
@@ -149,17 +177,19 @@ Offsets(C, ai) ==
 AEvents(C, l, ai) ==
     SelectSeq(l, LAMBDA x : x.ev \in AKinds /\ x.a = C.arrs[ai].name)
 
+\* (the exact index set of every stage call is demanded by P_Stages)
+MaxNReal(C, ai) == SetMax({NRealAt(C, ai)[r] : r \in 0..NOcc(C)})
 P_NoGhost(C, l) ==
     \A ai \in 1..Len(C.arrs) :
         \A x \in 1..Len(l) :
             (l[x].ev = "visit" /\ l[x].a = C.arrs[ai].name)
-                => (l[x].i >= 0 /\ l[x].i < C.arrs[ai].nreal)
+                => (l[x].i >= 0 /\ l[x].i < MaxNReal(C, ai))
 
 BlockOK(C, A, ai, r, off) ==
     LET d    == Meth(C, ai, r)
         m    == OpOf(C, r).m
         npy  == IF d.py THEN 1 ELSE 0
-        nv   == IF d.loop THEN C.arrs[ai].nreal ELSE 0
+        nv   == IF d.loop THEN NRealAt(C, ai)[r] ELSE 0
         okt(x) == /\ x.m = m
                   /\ Near(x.t, StageTime(C, r), C.e)
                   /\ Near(x.dt, StepDt(C, r), C.e)
